@@ -1,7 +1,288 @@
-import LMV.Model.Sampler
+/-
+  C16 — Gibbs sampler state always equals a recomputation from its alignment.
+
+  Model: `LMV.Model.Sampler` (`init`, `next`, `run`; the random draws and the floating-point
+  decisions are inputs constrained by `InitAdm` / `Adm` exactly as the code constrains them).
+  The alignment a state describes is `(st s, act s)`; what "the counts of an alignment" means is
+  `alignMotif` / `alignBg` / `alignCount` (LMV.Lemmas.SamplerInv), written from the property text.
+
+  Everything here is for every dataset, alphabet size, width, mode, parameter set, and every finite
+  stream of admissible choices (i.e. every seed and every run length).
+-/
+import LMV.Lemmas.SamplerInit
 
 namespace LMV
 namespace C16
+
+open Sampler
+
+variable {K : Nat} {D : Data} {P : Params}
+
+/-! ### hypotheses -/
+
+/-- "any dataset whose sequences are longer than the width" -/
+def Longer (D : Data) (w : Nat) : Prop := ∀ i, i < D.n → w < (D.seq i).size
+
+/-- every choice along a run is admissible in the state in which it is made -/
+def AdmRun (D : Data) (P : Params) : State K → List Choice → Prop
+  | _, [] => True
+  | s, c :: cs => Adm D P s c ∧ ∀ s' it, next D P s c = .ok (some (s', it)) → AdmRun D P s' cs
+
+/-- at least two sequences are active -/
+def TwoActive (D : Data) (s : State K) : Prop :=
+  ∃ i j, i < D.n ∧ j < D.n ∧ i ≠ j ∧ act s i = true ∧ act s j = true
+
+/-! ### the invariant holds initially -/
+
+/-- `Inv init`: whatever `_new` draws, the state it builds equals the recomputation from its
+    alignment. -/
+theorem inv_init {ic : InitChoice} {s : State K} (hwf : D.WF K) (hadm : InitAdm D P ic)
+    (h : init D P ic = .ok s) : Inv D P.w s := by
+  rcases init_spec (K := K) hwf hadm with ⟨_, he⟩ | ⟨_, s', hs', hinv, _⟩
+  · rw [he] at h; cases h
+  · rw [hs'] at h; cases h; exact hinv
+
+/-- `_new` panics exactly when a sequence has fewer wrap rows than the width. -/
+theorem init_panics_iff {ic : InitChoice} (hwf : D.WF K) (hadm : InitAdm D P ic) :
+    (∃ e, init (K := K) D P ic = .error e) ↔ D.wraps.any (· < P.w) = true := by
+  rcases init_spec (K := K) hwf hadm with ⟨hw, he⟩ | ⟨hw, s', hs', _⟩
+  · exact ⟨fun _ => hw, fun _ => ⟨_, he⟩⟩
+  · constructor
+    · intro ⟨e, he⟩; rw [hs'] at he; cases he
+    · intro h; rw [hw] at h; cases h
+
+/-! ### the invariant is preserved by every step, in both modes -/
+
+/-- `Inv s → Inv (step s c).1` for every admissible choice. -/
+theorem inv_step {s s' : State K} {c : Choice} {it : Iteration K} (hwf : D.WF K)
+    (hinv : Inv D P.w s) (hadm : Adm D P s c) (h : next D P s c = .ok (some (s', it))) :
+    Inv D P.w s' := by
+  have hnc : s.converged = false := by
+    cases hc : s.converged with
+    | false => rfl
+    | true => unfold next at h; rw [if_pos hc] at h; cases h
+  rcases (next_spec hwf hinv hadm hnc).2 with ⟨_, he⟩ | ⟨_, s2, it2, hs2, hinv2, _⟩
+  · rw [he] at h; cases h
+  · rw [hs2] at h; cases h; exact hinv2
+
+/-- What a step yields: `Iteration.counts` is the count matrix of the alignment *without* the
+    held-out sequence (and its sequence count the number of the other active sequences); the new
+    state differs from the old alignment only at `z`. -/
+theorem iteration_counts {s s' : State K} {c : Choice} {it : Iteration K} (hwf : D.WF K)
+    (hinv : Inv D P.w s) (hadm : Adm D P s c) (h : next D P s c = .ok (some (s', it))) :
+    it.z = c.z ∧ it.step = s.step ∧
+    (∀ j, j < P.w → ∀ cc, cc < K →
+      it.counts.get j cc = alignMotif D (st s) (without (act s) c.z) j cc) ∧
+    it.n = alignCount D (without (act s) c.z) ∧
+    act s' = actAfter P (act s) c ∧ st s' = stAfter (st s) c ∧ s'.step = s.step + 1 := by
+  have hnc : s.converged = false := by
+    cases hc : s.converged with
+    | false => rfl
+    | true => unfold next at h; rw [if_pos hc] at h; cases h
+  rcases (next_spec hwf hinv hadm hnc).2 with ⟨_, he⟩ | ⟨_, s2, it2, hs2, _, ha, hs, hstep, _, hz, hst, hc, hn⟩
+  · rw [he] at h; cases h
+  · rw [hs2] at h; cases h; exact ⟨hz, hst, hc, hn, ha, hs, hstep⟩
+
+/-- A drawn start that `WeightedIndex::new` could not produce (`none`) is the same as drawing the
+    old start: the state after the step has the alignment `stAfter`, which reads `none` as "keep". -/
+theorem start_none_keeps {s s' : State K} {c : Choice} {it : Iteration K} (hwf : D.WF K)
+    (hinv : Inv D P.w s) (hadm : Adm D P s c) (h : next D P s c = .ok (some (s', it)))
+    (hnone : c.start = none) : st s' = st s := by
+  rw [(iteration_counts hwf hinv hadm h).2.2.2.2.2.1]
+  funext i
+  unfold stAfter
+  by_cases e : i = c.z
+  · rw [if_pos e, hnone, e]; rfl
+  · rw [if_neg e]
+
+/-! ### panics -/
+
+/-- A step panics exactly when nothing remains outside the windows once `z` is held out
+    (`Background::from_counts(..).unwrap()` in `prepare_pssm`); no other panic site — index,
+    `u32`/`usize` underflow, empty seed list — is reachable from a state satisfying the invariant. -/
+theorem step_panics_iff {s : State K} {c : Choice} (hwf : D.WF K) (hinv : Inv D P.w s)
+    (hadm : Adm D P s c) (hnc : s.converged = false) :
+    (∃ e, next D P s c = .error e) ↔ NothingLeft D P.w s c.z := by
+  rcases (next_spec hwf hinv hadm hnc).2 with ⟨hn, he⟩ | ⟨hn, s2, it2, hs2, _⟩
+  · exact ⟨fun _ => hn, fun _ => ⟨_, he⟩⟩
+  · constructor
+    · intro ⟨e, he⟩; rw [hs2] at he; cases he
+    · intro h; exact absurd h hn
+
+/-- With every sequence longer than the width, "nothing left" means: no sequence other than `z`
+    is active. -/
+theorem nothingLeft_iff {s : State K} {z : Nat} (hwf : D.WF K) (hL : Longer D P.w)
+    (hinv : Inv D P.w s) :
+    NothingLeft D P.w s z ↔ ∀ i, i < D.n → i ≠ z → act s i = false := by
+  unfold NothingLeft alignBg
+  constructor
+  · intro h i hi hiz
+    cases ha : act s i with
+    | false => rfl
+    | true =>
+      exfalso
+      obtain ⟨k, hk, hpos⟩ := outCount_pos (D.seq i) (st s i) P.w (hinv.inside i hi) (hL i hi)
+      have hc := hwf.sym i hi k hk
+      have h0 := h _ hc
+      rw [sumTo_eq_zero] at h0
+      have := h0 i hi
+      have hw : without (act s) z i = true := by unfold without; rw [if_neg hiz]; exact ha
+      rw [if_pos hw] at this
+      omega
+  · intro h c _
+    rw [sumTo_eq_zero]
+    intro i hi
+    have : without (act s) z i = false := by
+      unfold without
+      by_cases e : i = z
+      · rw [if_pos e]
+      · rw [if_neg e]; exact h i hi e
+    rw [this]; rfl
+
+/-- With two active sequences a step never panics, and two sequences stay active (a previously
+    active sequence is never dropped). -/
+theorem step_ok_of_two_active {s : State K} {c : Choice} (hwf : D.WF K) (hL : Longer D P.w)
+    (hinv : Inv D P.w s) (hadm : Adm D P s c) (hnc : s.converged = false) (h2 : TwoActive D s) :
+    ∃ s' it, next D P s c = .ok (some (s', it)) ∧ TwoActive D s' := by
+  obtain ⟨i, j, hi, hj, hij, hai, haj⟩ := h2
+  have hnl : ¬ NothingLeft D P.w s c.z := by
+    rw [nothingLeft_iff hwf hL hinv]
+    intro h
+    by_cases e : i = c.z
+    · have := h j hj (fun x => hij (by rw [e, x])); rw [haj] at this; cases this
+    · have := h i hi e; rw [hai] at this; cases this
+  rcases (next_spec hwf hinv hadm hnc).2 with ⟨hn, _⟩ | ⟨_, s2, it2, hs2, _, ha, _⟩
+  · exact absurd hn hnl
+  · refine ⟨s2, it2, hs2, i, j, hi, hj, hij, ?_, ?_⟩
+    · rw [ha]; unfold actAfter
+      by_cases e : i = c.z
+      · rw [if_pos e, if_neg (fun hh => by rw [← e, hai] at hh; cases hh.2.1)]
+      · rw [if_neg e]; exact hai
+    · rw [ha]; unfold actAfter
+      by_cases e : j = c.z
+      · rw [if_pos e, if_neg (fun hh => by rw [← e, haj] at hh; cases hh.2.1)]
+      · rw [if_neg e]; exact haj
+
+/-! ### whole runs: every seed, every run length -/
+
+/-- The invariant holds after every step of every run — induction over the choice stream. -/
+theorem inv_run (hwf : D.WF K) : ∀ (cs : List Choice) (s : State K), Inv D P.w s → AdmRun D P s cs →
+    ∀ x, x ∈ (run D P s cs).1 → Inv D P.w x.1 := by
+  intro cs
+  induction cs with
+  | nil => intro s _ _ x hx; simp [run] at hx
+  | cons c cs ih =>
+    intro s hinv hadm x hx
+    obtain ⟨ha, hrest⟩ := hadm
+    unfold run at hx
+    cases hn : next D P s c with
+    | error e => rw [hn] at hx; simp at hx
+    | ok r =>
+      cases r with
+      | none => rw [hn] at hx; simp at hx
+      | some p =>
+        obtain ⟨s', it⟩ := p
+        rw [hn] at hx
+        have hinv' := inv_step hwf hinv ha hn
+        simp only [List.mem_cons] at hx
+        rcases hx with rfl | hx
+        · exact hinv'
+        · exact ih s' hinv' (hrest s' it hn) x hx
+
+/-- what the property demands of one step `s → (s', it)`: the new state equals the recomputation
+    from its alignment, and the iteration reports the previous alignment without `it.z` -/
+def StepOK (D : Data) (P : Params) (s s' : State K) (it : Iteration K) : Prop :=
+  Inv D P.w s' ∧
+  (∀ j, j < P.w → ∀ cc, cc < K →
+    it.counts.get j cc = alignMotif D (st s) (without (act s) it.z) j cc) ∧
+  it.n = alignCount D (without (act s) it.z)
+
+def TraceOK (D : Data) (P : Params) : State K → List (State K × Iteration K) → Prop
+  | _, [] => True
+  | s, x :: rest => StepOK D P s x.1 x.2 ∧ TraceOK D P x.1 rest
+
+/-- Every step of every run satisfies the property: state = recomputation from the alignment, and
+    `Iteration.counts` = counts of the alignment without the held-out sequence. -/
+theorem trace_ok (hwf : D.WF K) : ∀ (cs : List Choice) (s : State K), Inv D P.w s →
+    AdmRun D P s cs → TraceOK D P s (run D P s cs).1 := by
+  intro cs
+  induction cs with
+  | nil => intro s _ _; simp [run, TraceOK]
+  | cons c cs ih =>
+    intro s hinv hadm
+    obtain ⟨ha, hrest⟩ := hadm
+    unfold run
+    cases hn : next D P s c with
+    | error e => simp [TraceOK]
+    | ok r =>
+      cases r with
+      | none => simp [TraceOK]
+      | some p =>
+        obtain ⟨s', it⟩ := p
+        have hinv' := inv_step hwf hinv ha hn
+        obtain ⟨hz, _, hc, hnn, _⟩ := iteration_counts hwf hinv ha hn
+        simp only [TraceOK]
+        refine ⟨⟨hinv', ?_, ?_⟩, ih s' hinv' (hrest s' it hn)⟩
+        · rw [hz]; exact hc
+        · rw [hz]; exact hnn
+
+/-- A run in which two sequences are active never panics (Oops with at least two sequences; Zoops
+    with at least two seeds): it stops only at the end of the choice stream or at convergence. -/
+theorem run_never_panics (hwf : D.WF K) (hL : Longer D P.w) : ∀ (cs : List Choice) (s : State K),
+    Inv D P.w s → TwoActive D s → AdmRun D P s cs → ∀ e, (run D P s cs).2 ≠ .panic e := by
+  intro cs
+  induction cs with
+  | nil => intro s _ _ _ e h; simp [run] at h
+  | cons c cs ih =>
+    intro s hinv h2 hadm e h
+    obtain ⟨ha, hrest⟩ := hadm
+    unfold run at h
+    cases hc : s.converged with
+    | true =>
+      have : next D P s c = .ok none := by unfold next; rw [if_pos hc]
+      rw [this] at h; simp at h
+    | false =>
+      obtain ⟨s', it, hn, h2'⟩ := step_ok_of_two_active hwf hL hinv ha hc h2
+      rw [hn] at h
+      exact ih s' (inv_step hwf hinv ha hn) h2' (hrest s' it hn) e (by simpa using h)
+
+/-! ### determinism -/
+
+/-- the whole observable trace of a sampler: the state after `_new`, then `run` -/
+def trace (D : Data) (P : Params) (ic : InitChoice) (cs : List Choice) :
+    R (State K × List (State K × Iteration K) × Stop) :=
+  match init D P ic with
+  | .error e => .error e
+  | .ok s => .ok (s, run D P s cs)
+
+/-- The trace is a function of (data, parameters, choice stream): two runs that make the same
+    draws produce identical traces — there is no other state (no hidden counter, no iteration-order
+    dependence) in the model. -/
+theorem trace_deterministic (D D' : Data) (P P' : Params) (ic ic' : InitChoice)
+    (cs cs' : List Choice) (hD : D = D') (hP : P = P') (hic : ic = ic') (hcs : cs = cs') :
+    trace (K := K) D P ic cs = trace D' P' ic' cs' := by
+  subst hD; subst hP; subst hic; subst hcs; rfl
+
+/-- … and step `k` depends on the first `k` choices only: extending the choice stream extends
+    the trace. -/
+theorem run_prefix : ∀ (cs ds : List Choice) (s : State K),
+    (run D P s cs).1 <+: (run D P s (cs ++ ds)).1 := by
+  intro cs
+  induction cs with
+  | nil => intro ds s; simp [run]
+  | cons c cs ih =>
+    intro ds s
+    rw [List.cons_append]
+    unfold run
+    cases hn : next D P s c with
+    | error e => simp
+    | ok r =>
+      cases r with
+      | none => simp
+      | some p =>
+        obtain ⟨s', it⟩ := p
+        simp only []
+        exact (List.prefix_cons_inj _).mpr (ih ds s')
 
 end C16
 end LMV
